@@ -147,6 +147,75 @@ func TestVerifAnalysis(t *testing.T) {
 				"got": []string{fmt.Sprint(rec.pretrigMean), "", fmt.Sprint(rec.pulseAverage), fmt.Sprint(rec.pulseRMS), fmt.Sprint(rec.peakValue)}})
 		}
 	}
+	// records analysed together in ONE AnalyzeData call must not influence each other (a segment with several
+	// triggers, a batch of secondaries): batches of different records, each checked against its own expected values
+	groups := map[string][]anPCase{}
+	order := []string{}
+	for _, c := range in.PCases {
+		key := fmt.Sprint(c.K, len(c.X), c.P, c.B)
+		if _, ok := groups[key]; !ok {
+			order = append(order, key)
+		}
+		groups[key] = append(groups[key], c)
+	}
+	nbatch := 0
+	for _, key := range order {
+		g := groups[key]
+		if len(g) < 3 || nbatch >= 400 {
+			continue
+		}
+		nbatch++
+		batch := []anPCase{g[0], g[len(g)/2], g[len(g)-1]}
+		n, k := len(batch[0].X), batch[0].K
+		id++
+		P := mat.NewDense(k, n, nil)
+		B := mat.NewDense(n, k, nil)
+		for r := 0; r < k; r++ {
+			for j := 0; j < n; j++ {
+				P.Set(r, j, float64(batch[0].P[r][j]))
+				B.Set(j, r, float64(batch[0].B[j][r]))
+			}
+		}
+		d3 := &DataStreamProcessor{NSamples: n, NPresamples: 1}
+		bad := []string{}
+		var pan string
+		func() {
+			defer func() {
+				if r := recover(); r != nil {
+					pan = fmt.Sprint(r)
+				}
+			}()
+			if err := d3.SetProjectorsBasis(P, B, "m"); err != nil {
+				pan = "SetProjectorsBasis: " + err.Error()
+				return
+			}
+			recs := []*DataRecord{}
+			for _, c := range batch {
+				rec := &DataRecord{data: make([]RawType, n), presamples: 1}
+				for i, x := range c.X {
+					rec.data[i] = RawType(x)
+				}
+				recs = append(recs, rec)
+			}
+			d3.AnalyzeData(recs)
+			for bi, c := range batch {
+				rec := recs[bi]
+				if len(rec.modelCoefs) != k {
+					bad = append(bad, "coefs")
+					continue
+				}
+				for r := 0; r < k; r++ {
+					if ok, _ := anClose(rec.modelCoefs[r], new(big.Rat).SetInt64(c.Exp.Coefs[r]), 1); !ok {
+						bad = append(bad, "coefs")
+					}
+				}
+				if ok, _ := anClose(rec.residualStdDev*rec.residualStdDev, anRat(c.Exp.Rsd2), 1); !ok {
+					bad = append(bad, "resid")
+				}
+			}
+		}()
+		vEmit(vmap{"ev": "Case", "scen": id, "npre": 1, "n": n, "signed": false, "base": 0, "panic": pan, "bad": bad, "kind": "projectors-batch"})
+	}
 	for _, c := range in.PCases {
 		id++
 		n := len(c.X)
